@@ -4,6 +4,9 @@ import (
 	"flag"
 	"fmt"
 	"os"
+	"sort"
+	"strings"
+	"time"
 )
 
 func main() {
@@ -28,6 +31,33 @@ func main() {
 		tier := fs.String("tier", "quick", "quick|thorough")
 		fs.Parse(os.Args[3:])
 		os.Exit(runCheck(os.Args[2], *tier))
+	case "explore": // explore <prop> <tier> <unit-substring> [reduce|full]
+		os.Setenv("VERIF_DEBUG_OUTCOMES", "1")
+		debugOutcomes = true
+		for _, sc := range scenariosOf(os.Args[2], os.Args[3]) {
+			if !strings.Contains(sc.Name, os.Args[4]) {
+				continue
+			}
+			if len(os.Args) > 5 {
+				sc.Reduce = os.Args[5] == "reduce"
+			}
+			if b := os.Getenv("VERIF_BOUND"); b != "" {
+				fmt.Sscan(b, &sc.Bound)
+			}
+			st := Explore(sc, time.Now().Add(5*time.Minute), false)
+			fmt.Printf("%s\n  reduce=%v executions=%d pruned=%d states=%d outcomes=%d bound=%d violations=%d\n", sc.Name, sc.Reduce, st.Executions, st.Pruned, st.States, st.Outcomes, st.BoundCompleted, len(st.Violations))
+			var keys []string
+			for k := range st.OutcomeLogs {
+				keys = append(keys, strings.Join(st.OutcomeLogs[k], " | "))
+			}
+			sort.Strings(keys)
+			for _, k := range keys {
+				fmt.Println("   ", k)
+			}
+			for _, v := range st.Violations {
+				fmt.Println("  VIOLATION:", v.Message)
+			}
+		}
 	case "list":
 		for _, u := range checks[os.Args[2]].Units(os.Args[3]) {
 			fmt.Println(u.Name)
